@@ -2,13 +2,18 @@ package main
 
 import (
 	"bytes"
+	"encoding/base64"
 	"encoding/binary"
+	"errors"
 	"encoding/hex"
 	"fmt"
 	"os"
 	"os/exec"
+	"path/filepath"
 	"strings"
+	"sync"
 
+	crypt "github.com/sergeymakinen/go-crypt"
 	"github.com/sergeymakinen/go-crypt/argon2/argon2crypto"
 	"golang.org/x/crypto/blake2b"
 )
@@ -59,6 +64,26 @@ func c04Grid(seed uint64, tier string) []a2cfg {
 	}
 	for i, p := range big {
 		out = append(out, a2cfg{i % 3, []int{0x13, 0x10}[i%2], r.bytes(r.intn(40)), r.bytes(8 + r.intn(24)), 1, 8*uint32(p) + uint32(i%2)*3, 32, p})
+	}
+	// the two variable-length hashes around the fill loop, at the cheapest memory: H0 absorbs the password and the salt
+	// (every total length across the BLAKE2b block boundaries), H' emits the tag (every tag length across the 64-byte
+	// and 32-byte boundaries of its chaining)
+	maxTotal, maxTag, step := 150, 140, 1
+	if tier == "thorough" {
+		maxTotal, maxTag = 300, 330
+	}
+	for total := 0; total <= maxTotal; total += step {
+		sl := 8 + (total*7)%17
+		if sl > total {
+			sl = total
+		}
+		out = append(out, a2cfg{total % 3, []int{0x13, 0x10}[total%2], r.bytes(total - sl), r.bytes(sl), 1, 8, 32, 1})
+	}
+	for kl := 1; kl <= maxTag; kl += step {
+		out = append(out, a2cfg{kl % 3, []int{0x13, 0x10}[(kl/3)%2], r.bytes(r.intn(20)), r.bytes(8 + r.intn(8)), 1, 8, uint32(kl), 1})
+	}
+	for _, kl := range []uint32{159, 160, 161, 191, 192, 193, 223, 224, 225, 255, 256, 257, 288, 512, 1000, 1024, 1056} {
+		out = append(out, a2cfg{int(kl) % 3, 0x13, r.bytes(r.intn(20)), r.bytes(8 + r.intn(8)), 1, 8, kl, 1})
 	}
 	return out
 }
@@ -130,9 +155,9 @@ func corrC04(outDir string, seed uint64, tier string, replay string) *report {
 	grid := c04Grid(seed, tier)
 	// keys from the purego build (portable Go block function everywhere)
 	var pure []string
-	if pg := os.Getenv("VERIF_HARNESS_PUREGO"); pg != "" || fileExists("/verif/build/harness_purego") {
+	if pg := os.Getenv("VERIF_HARNESS_PUREGO"); pg != "" || fileExists(buildPath("harness_purego")) {
 		if pg == "" {
-			pg = "/verif/build/harness_purego"
+			pg = buildPath("harness_purego")
 		}
 		out, err := exec.Command(pg, "c04keys", fmt.Sprint(seed), tier).Output()
 		if err == nil {
@@ -143,6 +168,8 @@ func corrC04(outDir string, seed uint64, tier string, replay string) *report {
 	}
 	rep.Distribution["purego_keys"] = len(pure)
 	openssl := 0
+	var modelReqs, implKeys []string
+	var modelIdx []int
 	for i, c := range grid {
 		key := a2Key(c) // default build: assembly with SSE4.1 when the CPU has it
 		old := argon2crypto.VerifSetSSE4(false)
@@ -154,20 +181,14 @@ func corrC04(outDir string, seed uint64, tier string, replay string) *report {
 		if i < len(pure) && pure[i] != hex.EncodeToString(key) {
 			rep.fail(c.String(), hex.EncodeToString(key), pure[i], "key differs between the assembly and the portable Go (purego) build")
 		}
-		// the model (RFC 9106 structure with the real BLAKE2b): small memories only
-		if c.memory <= 40 || i%5 == 0 {
-			got, err := m.run(fmt.Sprintf("argon2 %d %d %s %s %d %d %d %d", c.mode, c.version, hx(c.pw), hx(c.salt), c.time, c.memory, c.threads, c.keyLen))
-			if err != nil {
-				rep.ModelBroken = "extracted model protocol error: " + err.Error()
-				break
-			}
-			if got != hx(key) {
-				rep.ModelMismatches = append(rep.ModelMismatches, map[string]interface{}{"config": c.String(), "implementation": hx(key), "model": got})
-			}
-			rep.bump("model_keys")
+		// the model (RFC 9106 structure with the real BLAKE2b): small memories only (evaluated below, in parallel)
+		if c.memory <= 40 || i%5 == 0 || c.memory <= 8*uint32(c.threads)+8 && tier == "thorough" {
+			modelReqs = append(modelReqs, fmt.Sprintf("argon2 %d %d %s %s %d %d %d %d", c.mode, c.version, hx(c.pw), hx(c.salt), c.time, c.memory, c.threads, c.keyLen))
+			modelIdx = append(modelIdx, i)
+			implKeys = append(implKeys, hx(key))
 		}
 		// OpenSSL's independent Argon2 (secondary oracle)
-		if i%3 == 0 && len(c.salt) >= 8 && c.keyLen >= 4 {
+		if i%3 == 0 && len(c.salt) >= 8 && c.keyLen >= 4 && i < 120 {
 			if o, ok := opensslArgon2(c); ok {
 				openssl++
 				if o != hex.EncodeToString(key) {
@@ -181,6 +202,24 @@ func corrC04(outDir string, seed uint64, tier string, replay string) *report {
 		}
 	}
 	rep.Distribution["openssl_compared"] = openssl
+	res, calls, err := modelPool(modelReqs, m.extra, 14)
+	if err != nil {
+		rep.ModelBroken = "extracted model protocol error: " + err.Error()
+	} else {
+		for k, got := range res {
+			if got != implKeys[k] {
+				rep.ModelMismatches = append(rep.ModelMismatches, map[string]interface{}{"config": grid[modelIdx[k]].String(), "implementation": implKeys[k], "model": got})
+				rep.fail(map[string]interface{}{"config": grid[modelIdx[k]].String(), "password_hex": hx(grid[modelIdx[k]].pw), "salt_hex": hx(grid[modelIdx[k]].salt)},
+					"RFC 9106 key (extracted Coq model): "+got, "argon2crypto.Key: "+implKeys[k], "key differs from the RFC 9106 algorithm")
+			}
+			rep.bump("model_keys")
+		}
+	}
+	m.calls += calls
+	// ---- verdicts on hash strings, with and without a v= field: the digest is the extracted model's key ----
+	if rep.ModelBroken == "" {
+		c04Strings(rep, m, r, tier)
+	}
 	// ---- block function: active implementation vs portable Go vs model, incl. aliased out ----
 	nb := 300
 	nModel := 40
@@ -278,3 +317,140 @@ func corrC04(outDir string, seed uint64, tier string, replay string) *report {
 var old0 = true
 
 func fileExists(p string) bool { _, err := os.Stat(p); return err == nil }
+
+// c04Strings: for the three variants and the three ways a version can be written (absent = 0x10, v=16, v=19), costs
+// in any order of the m/t/p group, the string whose digest is the RFC 9106 key computed by the extracted model must
+// verify (package checker and top-level dispatcher), and the string carrying the key of the other version must be a
+// mismatch: the version a string states is the version that is derived.
+func c04Strings(rep *report, m *modelProc, r *rng, tier string) {
+	n := 2
+	if tier == "thorough" {
+		n = 8
+	}
+	enc := base64.RawStdEncoding
+	for mode, name := range []string{"argon2d", "argon2i", "argon2id"} {
+		for rep_ := 0; rep_ < n; rep_++ {
+			pw := r.bytes(r.intn(24))
+			salt := r.bytes(8 + r.intn(9))
+			mem, tm, p := 8+r.intn(20), 1+r.intn(2), 1+r.intn(2)
+			if mem < 8*p {
+				mem = 8 * p
+			}
+			keys := map[int]string{}
+			for _, ver := range []int{0x10, 0x13} {
+				got, err := m.run(fmt.Sprintf("argon2 %d %d %s %s %d %d %d %d", mode, ver, hx(pw), hx(salt), tm, mem, p, 32))
+				if err != nil {
+					rep.ModelBroken = "extracted model protocol error: " + err.Error()
+					return
+				}
+				keys[ver] = enc.EncodeToString(unhx(got))
+			}
+			costs := [][3]string{{"m", "t", "p"}, {"t", "p", "m"}, {"p", "m", "t"}}[rep_%3]
+			val := map[string]int{"m": mem, "t": tm, "p": p}
+			var cs []string
+			for _, k := range costs {
+				cs = append(cs, fmt.Sprintf("%s=%d", k, val[k]))
+			}
+			for _, v := range []struct {
+				field string
+				ver   int
+			}{{"", 0x10}, {"v=16$", 0x10}, {"v=19$", 0x13}} {
+				for _, which := range []int{0x10, 0x13} {
+					h := fmt.Sprintf("$%s$%s%s$%s$%s", name, v.field, strings.Join(cs, ","), enc.EncodeToString(salt), keys[which])
+					want := "mismatch"
+					if which == v.ver {
+						want = "nil"
+					}
+					for _, via := range []string{"argon2.Check", "crypt.Check"} {
+						var err error
+						if via == "argon2.Check" {
+							err = schemeByName("argon2").check(h, string(pw))
+						} else {
+							err = func() (e error) {
+								defer func() {
+									if x := recover(); x != nil {
+										e = notePanic("crypt.Check", "hash="+quoteShort(h)+" password="+quoteShort(string(pw)), x)
+									}
+								}()
+								return crypt.Check(h, string(pw))
+							}()
+						}
+						got := "error: " + fmt.Sprint(err)
+						if err == nil {
+							got = "nil"
+						} else if errors.Is(err, crypt.ErrPasswordMismatch) {
+							got = "mismatch"
+						}
+						if got != want {
+							rep.fail(map[string]interface{}{"hash": h, "password_hex": hx(pw), "via": via, "digest_is_rfc9106_key_of_version": fmt.Sprintf("%#x", which)},
+								want, got, "verdict on an Argon2 hash string differs from the RFC 9106 key of the version the string states (absent v= means 0x10)")
+						}
+						rep.count("str "+h+via, true)
+						rep.bump("string_verdicts")
+					}
+				}
+			}
+		}
+	}
+}
+
+// modelPool evaluates independent requests on n extracted-model processes in parallel (results in request order).
+func modelPool(reqs []string, extra func(p []string) (string, bool), n int) ([]string, int, error) {
+	res := make([]string, len(reqs))
+	if len(reqs) == 0 {
+		return res, 0, nil
+	}
+	if n > len(reqs) {
+		n = len(reqs)
+	}
+	var wg sync.WaitGroup
+	var mu sync.Mutex
+	var firstErr error
+	next, calls := 0, 0
+	for w := 0; w < n; w++ {
+		wg.Add(1)
+		go func() {
+			defer wg.Done()
+			mp, err := startModel()
+			if err != nil {
+				mu.Lock()
+				firstErr = err
+				mu.Unlock()
+				return
+			}
+			mp.extra = extra
+			defer mp.close()
+			for {
+				mu.Lock()
+				k := next
+				next++
+				mu.Unlock()
+				if k >= len(reqs) {
+					break
+				}
+				got, err := mp.run(reqs[k])
+				if err != nil {
+					mu.Lock()
+					firstErr = err
+					mu.Unlock()
+					return
+				}
+				res[k] = got
+			}
+			mu.Lock()
+			calls += mp.calls
+			mu.Unlock()
+		}()
+	}
+	wg.Wait()
+	return res, calls, firstErr
+}
+
+// buildPath: a file under /verif/build (bin/check passes its own build directory in VERIF_BUILD)
+func buildPath(name string) string {
+	d := os.Getenv("VERIF_BUILD")
+	if d == "" {
+		d = "/verif/build"
+	}
+	return filepath.Join(d, name)
+}
